@@ -1,9 +1,9 @@
 #!/bin/bash
-# one pass of the race mode: prints the first race's two top frames, or CLEAN
+# race mode pass: real time (no bubble), durations /SCALE, hooks off, -race. Prints the first race or CLEAN.
 cd /verif/sim && G124=/root/go/pkg/mod/golang.org/toolchain@v0.0.1-go1.24.2.linux-amd64 && GOFLAGS=-mod=mod GOPROXY=off GOSUMDB=off GOTOOLCHAIN=local GOEXPERIMENT=synctest $G124/bin/go test -race -c -tags verif -o /verif/.build/sim.race.124.test . || exit 2
 cd /verif
-for s in 1 2 3 4; do
-VERIF_SEED=$s VERIF_FREE=1 VERIF_UNCONTROLLED=1 GORACE="halt_on_error=1" VERIF_PROP=${1:-C18} VERIF_COUNT=${2:-150} VERIF_QUIET=1 timeout 900 .build/sim.race.124.test -test.run TestAdhoc > /tmp/race.$s.txt 2>&1 &
+for s in 1 2 3 4 5 6 7 8; do
+VERIF_SEED=$s VERIF_FREE=1 VERIF_UNCONTROLLED=1 VERIF_REALTIME=${3:-10} GORACE="halt_on_error=1" VERIF_PROP=${1:-C18} VERIF_COUNT=${2:-40} VERIF_QUIET=1 timeout 900 .build/sim.race.124.test -test.run TestAdhoc > /tmp/race.$s.txt 2>&1 &
 done; wait
-for s in 1 2 3 4; do if grep -q "DATA RACE" /tmp/race.$s.txt; then grep -m1 -A14 "DATA RACE" /tmp/race.$s.txt | grep -A1 "server\.\|^Read\|^Write\|^Previous" | grep -v "^--" | head -12; exit 1; fi; done
+for s in 1 2 3 4 5 6 7 8; do if grep -q "DATA RACE" /tmp/race.$s.txt; then grep -m1 -A60 "DATA RACE" /tmp/race.$s.txt | grep "server\.\|^Read\|^Previous\|^Write" | head -12; exit 1; fi; done
 tail -3 /tmp/race.1.txt; echo CLEAN
